@@ -169,7 +169,7 @@ def main(argv=None):
                     sig = None
                 if sig != last_change[i][0]:
                     last_change[i] = (sig, now)
-                elif sig is not None and now - last_change[i][1] > stall_s:
+                elif sig is not None and sig[1] > 0 and now - last_change[i][1] > stall_s:
                     try:
                         with open(cur) as f:
                             stalled[i] = f.read()
